@@ -11,8 +11,12 @@
 //               doc/pretty + part: global declarations parsed first (the XML reader would have parsed the enclosing
 //               <declaration>); tiga: the model (XML if it starts with '<', else XTA) the queries are parsed against
 // Every input runs in a forked child (a crash identifies its input) under a CPU-time budget
-// (cpu_base_ms + cpu_us_per_byte*len)*mult [ITIMER_PROF; robust on a loaded machine] and a wall-clock back stop
-// (25x that + 60 s) [ITIMER_REAL].  One canonical line per input on stdout:
+// (cpu_base_ms + cpu_us_per_byte*len)*mult [ITIMER_PROF; robust on a loaded machine], a wall-clock back stop
+// (25x that + 60 s) [ITIMER_REAL] and a cap on its resident set of 2 GB + 4 KB per input byte [looked at every 20 ms of
+// CPU time, ITIMER_VIRTUAL; RLIMIT_AS cannot be used: the sanitizer reserves terabytes of address space].  The child
+// that exceeds the cap prints `==C01-MEMORY-LIMIT== rss_mb=.. cap_mb=..` and its stack and exits with 78, so that an
+// input whose processing needs memory out of proportion to its size costs at most the cap.
+// One canonical line per input on stdout:
 //   <id> ok <detail> wall_ms cpu_ms
 //   <id> exception:<class> <detail> wall_ms cpu_ms             (anything derived from std::exception: PASS)
 //   <id> nonstd-exception - wall_ms cpu_ms                      (FAIL)
@@ -421,6 +425,31 @@ static void onProf(int)
     _exit(79);
 }
 
+static long rssCapMb = 0;
+
+/// every 20 ms of CPU time: the resident set (second field of /proc/self/statm, in pages) against the cap of this input
+static void onVtalrm(int)
+{
+    char buf[128];
+    int fd = open("/proc/self/statm", O_RDONLY);
+    if (fd < 0) return;
+    ssize_t n = read(fd, buf, sizeof buf - 1);
+    close(fd);
+    if (n <= 0) return;
+    buf[n] = 0;
+    const char* p = buf;
+    while (*p && *p != ' ') ++p;
+    long pages = atol(p);
+    long mb = pages / (1048576 / sysconf(_SC_PAGESIZE));
+    if (rssCapMb <= 0 || mb <= rssCapMb) return;
+    char msg[96];
+    int len = snprintf(msg, sizeof msg, "\n==C01-MEMORY-LIMIT== rss_mb=%ld cap_mb=%ld\n", mb, rssCapMb);
+    if (write(2, msg, (size_t)len) < 0) {}
+    setTimer(ITIMER_REAL, 15000);  // back stop if printing dead-locks
+    __sanitizer_print_stack_trace();
+    _exit(78);
+}
+
 static void setTimer(int which, double ms)
 {
     itimerval it{};
@@ -486,6 +515,11 @@ int main(int argc, char** argv)
             signal(SIGPROF, onProf);
             setTimer(ITIMER_PROF, cpuMs);
             setTimer(ITIMER_REAL, wallMs);
+            rssCapMb = 2048 + (long)((j.input.size() + j.ctx.size()) / 256);   // 4 KB per input byte
+            signal(SIGVTALRM, onVtalrm);
+            itimerval every{};
+            every.it_interval.tv_usec = every.it_value.tv_usec = 20000;
+            setitimer(ITIMER_VIRTUAL, &every, nullptr);
             std::string out;
             Detail d;
             try {
